@@ -333,6 +333,28 @@ def perm_part(run):
                 run.violation('process:second-frame-differs %s %s->%s' % (', '.join(x.split(' ')[0] for x in ops_txt), fmt, fmt2),
                               'after a %s frame the same Util turns a %s frame %r into %r, a fresh one into %r'
                               % (fmt, fmt2, rows_of(img2), rows_of(g2.image), rows_of(want2.image)), dict(case, second=[fmt2, rows_of(img2)]))
+            # transforms tied to a topic mixed with transforms for all topics: every topic gets, in the order written, the ones
+            # that apply to it
+            scope = [rng.choice([None, None, 'main', 'other']) for _ in ops_txt]
+            if len(set(scope)) > 1:
+                scoped_txt = [t if sc is None else t + ';' + sc for t, sc in zip(ops_txt, scope)]
+                cfg3 = Util.normalize_config({'id': 'u', 'xforms': ', '.join(scoped_txt)})
+                u3 = Util.__new__(Util)
+                u3.setup(cfg3)
+                res3 = u3.process({'main': Frame(img.copy(), format=fmt), 'other': Frame(img.copy(), format=fmt)})
+                u3.executor.shutdown(wait=False)
+                for tpc in ('main', 'other'):
+                    want3 = Frame(img.copy(), format=fmt)
+                    for xf3, sc in zip(cfg.xforms, scope):
+                        if sc is None or sc == tpc:
+                            want3 = UTIL.execute_xforms(adict(topic=tpc, frame=want3, xforms=[xf3])).frame
+                    g3 = res3[tpc]
+                    if (g3.format, g3.width, g3.height) != (want3.format, want3.width, want3.height) or not np.array_equal(g3.image, want3.image):
+                        run.violation('process:scoped-chain-differs %s' % ', '.join(x.split(' ')[0] + (';' + sc if sc else '') for x, sc in zip(ops_txt, scope)),
+                                      'xforms %r: Util.process gives topic %r %s %dx%d, the transforms that apply to it one after the other give %s %dx%d'
+                                      % (', '.join(scoped_txt), tpc, g3.format, g3.width, g3.height, want3.format, want3.width, want3.height), dict(case, scoped=scoped_txt))
+                        break
+                run.count('process:scoped-chain')
         except Exception as e:     # noqa
             run.violation('process:raises %s' % type(e).__name__, 'Util.process raised %r' % (e,), case)
         run.seen(('p', w, h, fmt, tuple(ops_txt), img.tobytes()))
